@@ -8,6 +8,7 @@ import (
 	"unicode/utf8"
 
 	"github.com/gobwas/ws"
+	"github.com/gobwas/ws/wsflate"
 	"github.com/gobwas/ws/wsutil"
 
 	"verifmc/drivers"
@@ -695,6 +696,109 @@ func main() {
 								t.Outcome(fmt.Sprintf("valid=%v accepted=%v", want, accepted))
 								return nil
 							})
+						}
+					}
+				}
+			})
+		})
+
+		// The reader of a connection that negotiated permessage-deflate: its extension list holds
+		// the message state that the application shares with its writer (as the autobahn example
+		// does). While an uncompressed fragmented text message is still arriving the application
+		// sends a compressed message of its own - from the ping handler, or between two reads -
+		// and so switches the shared state to "compressed". The verdict on the incoming message
+		// is still utf8.Valid of its whole payload.
+		r.Part("E7-text-arriving-while-a-shared-extension-state-changes", func(t *explore.T) {
+			var msgs [][]byte
+			var gen func(cur []byte, k int)
+			gen = func(cur []byte, k int) {
+				if k > 0 {
+					msgs = append(msgs, append([]byte{}, cur...))
+				}
+				if k == 3 {
+					return
+				}
+				for _, u := range units {
+					gen(append(append([]byte{}, cur...), u...), k+1)
+				}
+			}
+			gen(nil, 0)
+			t.Par(len(msgs), func(mi int) {
+				msg := msgs[mi]
+				for a := 0; a <= len(msg); a++ {
+					for _, when := range []string{"in-ping-handler", "between-reads", "before-the-message", "never"} {
+						for _, chain := range []string{"state", "identity,state"} {
+							for _, side := range []streams.Side{streams.Server, streams.Client} {
+								a, when, chain, side := a, when, chain, side
+								t.Do(func() string {
+									return fmt.Sprintf("%s text %x | ping | %x, extensions [%s], shared state set to compressed %s", side, msg[:a], msg[a:], chain, when)
+								}, func() *explore.Fail {
+									mkf := func(i int, o byte, fin bool, p []byte) []byte {
+										return streams.Frame{H: refmodel.Hdr{Fin: fin, Op: o, Masked: side == streams.Server, Mask: streams.Masks[i%3]}, Payload: p}.Wire()
+									}
+									data := mkf(0, 1, false, msg[:a])
+									first := len(data)
+									data = append(data, mkf(1, 9, true, nil)...)
+									data = append(data, mkf(2, 0, true, msg[a:])...)
+									src := env.NewSrc(data)
+									// the first fragment arrives on its own: the reader returns before the rest is there
+									src.HiccupAt, src.HiccupErr = first, env.TempErr{IsTimeout: true}
+									var state wsflate.MessageState
+									exts := []wsutil.RecvExtension{&state}
+									if chain != "state" {
+										exts = []wsutil.RecvExtension{wsutil.RecvExtensionFunc(func(h ws.Header) (ws.Header, error) { return h, nil }), &state}
+									}
+									rd := &wsutil.Reader{Source: src, State: drivers.State(side) | ws.StateExtended, CheckUTF8: true, Extensions: exts}
+									rd.OnIntermediate = func(h ws.Header, r io.Reader) error {
+										if when == "in-ping-handler" {
+											state.SetCompressed(true)
+										}
+										return nil
+									}
+									if when == "before-the-message" {
+										state.SetCompressed(true)
+									}
+									if _, err := rd.NextFrame(); err != nil {
+										return explore.Failf("harness-first-frame", "%v", err)
+									}
+									if state.IsCompressed() {
+										return explore.Failf("state-not-synchronised", "the message carries no RSV1 but the state says compressed after its first frame")
+									}
+									var got []byte
+									var err error
+									buf := make([]byte, 16)
+									for it := 0; it < 200; it++ {
+										var n int
+										n, err = rd.Read(buf)
+										got = append(got, buf[:n]...)
+										if err == error(env.TempErr{IsTimeout: true}) {
+											if when == "between-reads" {
+												state.SetCompressed(true)
+											}
+											continue
+										}
+										if err != nil {
+											break
+										}
+									}
+									want := utf8.Valid(msg)
+									accepted := err == io.EOF
+									if accepted && !want {
+										return explore.Failf("invalid-text-accepted:"+when, "payload %x delivered as valid", msg)
+									}
+									if accepted && !bytes.Equal(got, msg) {
+										return explore.Failf("payload-differs:"+when, "got %x want %x", got, msg)
+									}
+									if !accepted && want {
+										return explore.Failf("valid-text-rejected:"+when, "payload %x: %v", msg, err)
+									}
+									if !accepted && err != wsutil.ErrInvalidUTF8 {
+										return explore.Failf("other-error:"+when, "payload %x: %v", msg, err)
+									}
+									t.Outcome(fmt.Sprintf("valid=%v accepted=%v", want, accepted))
+									return nil
+								})
+							}
 						}
 					}
 				}
